@@ -111,10 +111,12 @@ def crbStep (codec : Codec) (d : Bytes) (conOff : Int) (st : CrbState) : R CrbSt
     let len ← getSI 4 d idxc
     let strlength := len - 1
     let idxc := idxc + 4
-    -- the data of different constants do not overlap: together they fit in the file (F104)
-    let declared := st.declared + (4 + strlength.toNat)
+    -- the data of different constants do not overlap: together they fit in the file (F104); what counts is the bytes the slice
+    -- really takes (F161: a negative length makes the slice end count from the end of the file)
+    let strdata := pySlice d idxc (idxc + strlength)
+    let declared := st.declared + (4 + strdata.length)
     if declared > d.length then throw .value else
-    let s ← decodeText codec (pySlice d idxc (idxc + strlength))
+    let s ← decodeText codec strdata
     pure { idx := idx2, bpc := bpc1, acc := st.acc ++ [Name.s (escapeString s)], declared := declared }
   else if ctype = 4 then
     pure { idx := idx2, bpc := bpc1, acc := st.acc ++ [Name.s (intStr coff)], declared := st.declared }
@@ -122,9 +124,10 @@ def crbStep (codec : Codec) (d : Bytes) (conOff : Int) (st : CrbState) : R CrbSt
     let idxc := conOff + coff
     let flen ← getSI 4 d idxc
     let idxc := idxc + 4
-    let declared := st.declared + (4 + flen.toNat)
+    let fdata := pySlice d idxc (idxc + flen)
+    let declared := st.declared + (4 + fdata.length)
     if declared > d.length then throw .value else
-    let f ← unpackFloat80 (pySlice d idxc (idxc + flen))
+    let f ← unpackFloat80 fdata
     pure { idx := idx2, bpc := bpc1, acc := st.acc ++ [Name.s f], declared := declared }
   else .error .value
 
